@@ -237,3 +237,28 @@ type ConnEvLite struct {
 	Task int
 	What string
 }
+
+// PSize draws a size: three times out of four from the table of boundary values (index 0 = simplest), otherwise
+// log-uniformly from [1, max] so that values between the table entries are reached as well.
+//
+//go:norace
+func (e *Env) PSize(table []int, max int) int {
+	if e.P(4) != 3 {
+		return table[e.P(len(table))]
+	}
+	bits := 0
+	for (1 << uint(bits+1)) <= max {
+		bits++
+	}
+	b := e.P(bits + 1)
+	v := (1 << uint(b)) + e.P(1<<uint(b))
+	if v > max {
+		v = max
+	}
+	return v
+}
+
+// PRange draws from [lo, hi], biased to lo.
+//
+//go:norace
+func (e *Env) PRange(lo, hi int) int { return lo + e.P(hi-lo+1) }
